@@ -140,7 +140,7 @@ def subsample_stratified(items, n, salt="", key=None):
 # ----------------------------------------------------------------------------------
 # validation: records -> TLC (sharded) -> verdicts
 def validate(prop, name, module, records, nshards=16, timeout=3600, extra_env=None, xmx="3g",
-             group=None, rec_id=None, verdict_id=None, per_shard=200):
+             group=None, rec_id=None, verdict_id=None, per_shard=200, spec="Spec", constants=None):
     """records -> TLC trace spec (sharded over single-worker JVMs) -> verdicts by id.
     group: function(record) -> key; records of one group stay together, in order (histories).
     rec_id / verdict_id: functions giving the id of a record / of a verdict line."""
@@ -162,7 +162,7 @@ def validate(prop, name, module, records, nshards=16, timeout=3600, extra_env=No
                 order[k] = len(order)
             parts[order[k] % nshards].append(r)
     cfg = os.path.join(d, "trace.cfg")
-    tlcrun.write_cfg(cfg, postcondition="Accepted")
+    tlcrun.write_cfg(cfg, spec=spec, constants=constants, postcondition="Accepted")
     envs = []
     for i in range(nshards):
         inf = os.path.join(d, f"in{i}.ndjson")
